@@ -6,20 +6,32 @@
 EXTENDS GatewayAuth, Json, SequencesExt
 
 VARIABLE case
-Init == case \in AuthCases \/ case \in ScopeCases
+Init == case \in AuthCases \/ case \in ScopeCases \/ case \in ResumeCases
 Next == UNCHANGED case
 Spec == Init /\ [][Next]_case
 
+IsCase   == case.kind = "case"
+IsResume == case.kind = "resume"
 Acc  == AcceptedAs(case.cert, case.reg)
 Srv  == Served(case.cert, case.reg, case.path)
 
-AuthSound  == AuthProp(case.cert, case.reg, Acc)
-VpcSound   == VpcProp(case.cert, case.reg, VerifyPeer(case.cert, case.reg))
-ScopeSound == ScopeProp(case.cert, case.reg, case.path, Acc, Srv)
-Complete   == CompleteProp(case.cert, case.reg, case.path, Acc, Srv)
+AuthSound  == IsCase => AuthProp(case.cert, case.reg, Acc)
+VpcSound   == IsCase => VpcProp(case.cert, case.reg, VerifyPeer(case.cert, case.reg))
+ScopeSound == IsCase => ScopeProp(case.cert, case.reg, case.path, Acc, Srv)
+Complete   == IsCase => CompleteProp(case.cert, case.reg, case.path, Acc, Srv)
+
+Acc2 == AcceptedAs2(case.cert, case.reg, case.change, case.present)
+Id2  == Identity2(case.cert, case.reg, case.present)
+ResumeSound == IsResume => ResumeProp(case.cert, case.reg, case.change, case.present, Resumes(case.cert, case.reg), Acc2)
+ResumeScope == IsResume => ScopeProp(Id2, case.reg, case.path, Acc2,
+                                     Served2(case.cert, case.reg, case.change, case.present, case.path))
+\* NOT an invariant of the shipped code (MC_strict.cfg shows the counterexample): revocation reaches resumed sessions
+RevocationEffective == IsResume => RevocationProp(case.cert, case.reg, case.change, case.present,
+                                                  Resumes(case.cert, case.reg), Acc2)
 
 ASSUME ndJsonSerialize("cases_auth.ndjson",  SetToSeq(AuthCases))
 ASSUME ndJsonSerialize("cases_scope.ndjson", SetToSeq(ScopeCases))
+ASSUME ndJsonSerialize("cases_resume.ndjson", SetToSeq(ResumeCases))
 
 \* measured sizes of the universe and of its interesting classes (parsed into the evidence file)
 Count(S) == [ n         |-> Cardinality(S),
@@ -30,4 +42,10 @@ Count(S) == [ n         |-> Cardinality(S),
 ASSUME PrintT(<<"universe", [regs |-> Cardinality(Regs), certs |-> Cardinality(CertUniverse), paths |-> Cardinality(Paths)]>>)
 ASSUME PrintT(<<"auth", Count(AuthCases)>>)
 ASSUME PrintT(<<"scope", Count(ScopeCases)>>)
+ASSUME PrintT(<<"resume", [ n       |-> Cardinality(ResumeCases),
+                            resumed |-> Cardinality({k \in ResumeCases : Resumes(k.cert, k.reg)}),
+                            accepted |-> Cardinality({k \in ResumeCases : AcceptedAs2(k.cert, k.reg, k.change, k.present)}),
+                            strictReadingFails |-> Cardinality({k \in ResumeCases :
+                                ~RevocationProp(k.cert, k.reg, k.change, k.present, Resumes(k.cert, k.reg),
+                                                AcceptedAs2(k.cert, k.reg, k.change, k.present))}) ]>>)
 ================================================================================
